@@ -7,6 +7,8 @@ import (
 	"go/types"
 	"strings"
 
+	"golang.org/x/tools/go/types/typeutil"
+
 	"verifcheck/core"
 )
 
@@ -92,9 +94,11 @@ func runC03(c *core.Ctx) {
 				perSend[e] = v
 			}
 			v.n++
-			local := core.CondOutcome(st, isLocal) == 1
-			qne := core.CondOutcome(st, isQNE) == 1
-			retry := core.CondOutcome(st, isRetry) == 1
+			// classified by the atoms the path established, however the tests are written (nested ifs, guard
+			// clauses with the condition inverted, named sub-conditions)
+			local := atomEstablished(st, isLocal) == 1
+			qne := atomEstablished(st, isQNE) == 2 // Empty(..) established false
+			retry := atomEstablished(st, isRetry) == 1
 			hhCalled := core.Marked(st, "hh")
 			want := !local && (qne || retry)
 			classes[fmt.Sprintf("local=%v qne=%v retry=%v hh=%v", local, qne, retry, hhCalled)] = true
@@ -127,6 +131,9 @@ func runC03(c *core.Ctx) {
 			var sentFact core.Fact
 			if k, ok := core.KeyOf(info, sent); ok {
 				sentFact = st[k]
+				if sentFact.Nil == core.IsNil {
+					sentNil = true // a variable that is nil on this path
+				}
 			}
 			sentDefCall, _ := sentFact.Def.(*ast.CallExpr)
 			switch {
@@ -136,7 +143,11 @@ func runC03(c *core.Ctx) {
 				}
 			case hhCalled:
 				// accepted enqueue
-				switch core.CondOutcome(st, isAny) {
+				anyLevel := core.CondOutcome(st, isAny)
+				if a := atomEqEstablished(st, isAny); a != 0 {
+					anyLevel = a
+				}
+				switch anyLevel {
 				case 0:
 					v.bad = "an accepted hinted-handoff enqueue is reported without distinguishing consistency level any: under any a durably queued write is a success, here the path always sends " + core.ExprStr(sent)
 				case 1:
@@ -188,18 +199,54 @@ func runC03(c *core.Ctx) {
 			}
 			return true
 		})
+		// helper form: required := h(level, len(shard.Owners)) with h a pure
+		// integer function of this package, folded per level below
+		var reqHelper *core.FuncInfo
+		var reqHelperArgs []ast.Expr
+		if reqObj == nil {
+			ast.Inspect(f.Body, func(nd ast.Node) bool {
+				as, ok := nd.(*ast.AssignStmt)
+				if !ok || as.Tok != token.DEFINE || len(as.Lhs) != 1 || len(as.Rhs) != 1 || reqObj != nil {
+					return true
+				}
+				ce, ok := as.Rhs[0].(*ast.CallExpr)
+				if !ok {
+					return true
+				}
+				fn, _ := typeutil.Callee(info, ce).(*types.Func)
+				h := c.P.FuncOf(fn)
+				if h == nil {
+					return true
+				}
+				hasLen := false
+				for _, a := range ce.Args {
+					if lc, ok := ast.Unparen(a).(*ast.CallExpr); ok && isLenCall(info, lc) && core.FieldPathOf(info, lc.Args[0]) == "ShardInfo.Owners" {
+						hasLen = true
+					}
+				}
+				if hasLen {
+					reqObj = info.ObjectOf(as.Lhs[0].(*ast.Ident))
+					reqHelper, reqHelperArgs = h, ce.Args
+				}
+				return true
+			})
+		}
 		c.Need(reqObj != nil, "required := len(shard.Owners)")
 		_ = ownersLen
 		ownersField := c.P.LookupField(metap, "ShardInfo", "Owners")
 		c.Need(ownersField != nil, "meta.ShardInfo.Owners")
 		// the switch over the consistency level
 		registry := map[string]bool{}
+		levelVal := map[string]int64{}
 		if pkg := c.P.ByPath["models"]; pkg != nil {
 			sc := pkg.Types.Scope()
 			for _, nme := range sc.Names() {
 				if k, ok := sc.Lookup(nme).(*types.Const); ok {
 					if nt, ok := k.Type().(*types.Named); ok && nt.Obj().Name() == "ConsistencyLevel" {
 						registry["models."+k.Name()] = true
+						if v, ok := constInt(k.Val()); ok {
+							levelVal["models."+k.Name()] = v
+						}
 					}
 				}
 			}
@@ -214,9 +261,18 @@ func runC03(c *core.Ctx) {
 			}
 			return true
 		})
-		c.Need(sw != nil, "switch over the consistency level")
+		c.Need(sw != nil || reqHelper != nil, "switch over the consistency level")
 		formula := map[string]ast.Expr{}
-		for _, cl := range sw.Body.List {
+		var swList []ast.Stmt
+		swPos := f.Decl.Pos()
+		if sw != nil {
+			swList = sw.Body.List
+			swPos = sw.Pos()
+		}
+		if reqHelper != nil {
+			swPos = reqHelper.Decl.Pos()
+		}
+		for _, cl := range swList {
 			cc := cl.(*ast.CaseClause)
 			for _, x := range cc.List {
 				name := constName(info, x)
@@ -238,13 +294,36 @@ func runC03(c *core.Ctx) {
 		for name := range registry {
 			sp, known := spec[name]
 			if !known {
-				c.Check("level-registry-covered", f.Name+"/"+name, c.P.Pos(sw.Pos()), false, "consistency level "+name+" is in the registry but has no specification in the checker and no case in the switch: triage")
+				c.Check("level-registry-covered", f.Name+"/"+name, c.P.Pos(swPos), false, "consistency level "+name+" is in the registry but has no specification in the checker and no case in the switch: triage")
 				continue
 			}
 			bad := ""
 			for n := int64(1); n <= 64 && bad == ""; n++ {
 				var got int64
-				if e, ok := formula[name]; ok {
+				if reqHelper != nil {
+					args := make([]int64, len(reqHelperArgs))
+					for i, a := range reqHelperArgs {
+						if t := info.TypeOf(a); t != nil && strings.HasSuffix(t.String(), "models.ConsistencyLevel") {
+							args[i] = levelVal[name]
+							continue
+						}
+						v, ok := core.EvalInt(info, a, nil, map[types.Object]int64{ownersField: n})
+						if !ok {
+							bad = "argument " + core.ExprStr(a) + " of " + reqHelper.Name + " is not integer arithmetic over the owner count"
+							break
+						}
+						args[i] = v
+					}
+					if bad != "" {
+						break
+					}
+					v, ok := core.EvalIntFunc(reqHelper, args)
+					if !ok {
+						bad = reqHelper.Name + " is not a pure integer function the checker can fold for " + name
+						break
+					}
+					got = v
+				} else if e, ok := formula[name]; ok {
 					v, ok := core.EvalInt(info, e, map[types.Object]int64{reqObj: n}, map[types.Object]int64{ownersField: n})
 					if !ok {
 						bad = "the expression assigned to required for " + name + " (" + core.ExprStr(e) + ") is not integer arithmetic over the owner count"
@@ -258,7 +337,7 @@ func runC03(c *core.Ctx) {
 					bad = fmt.Sprintf("required for %s with %d owners evaluates to %d, specification says %d", name, n, got, sp(n))
 				}
 			}
-			c.Check("required-by-level", f.Name+"/"+name, c.P.Pos(sw.Pos()), bad == "", bad)
+			c.Check("required-by-level", f.Name+"/"+name, c.P.Pos(swPos), bad == "", bad)
 		}
 		// collector loop rules via path exploration
 		wroteObj := findVar(f, "wrote")
